@@ -640,6 +640,23 @@ fn run_gated(events: &[Event], keep_records: bool) -> Report {
         let _ = w.tx.send(Cmd::Exit);
         let _ = w.handle.join();
     }
+    let hook = ops::take_hook_findings();
+    if hook.0 > 0 {
+        *stats.faults.entry("calls_from_panic_hook").or_insert(0) += hook.0;
+    }
+    for msg in hook.1 {
+        for prop in ["C15", "C17", "C02"] {
+            found.push(Found {
+                index: events.len(),
+                thread: 0,
+                prop: prop.to_string(),
+                msg: format!("(call made from the caller's panic hook while a library call was panicking) {}", msg),
+                op: "(panic hook)".into(),
+                tag: String::new(),
+                enc: String::new(),
+            });
+        }
+    }
     Report {
         stats,
         found,
@@ -827,9 +844,10 @@ fn emit(mode: &str, seed: u64, focus: &str, rep: &Report, trace: Option<&[String
 /// Run-level fault settings, in the form they take in a replay file's header.
 fn swarm_header() -> String {
     format!(
-        "alloc_faults={} small_stack_kb={}",
+        "alloc_faults={} small_stack_kb={} hook_calls={}",
         ops::ALLOC_FAULTS.load(std::sync::atomic::Ordering::Relaxed) as u8,
-        ops::SMALL_STACK_KB.load(std::sync::atomic::Ordering::Relaxed)
+        ops::SMALL_STACK_KB.load(std::sync::atomic::Ordering::Relaxed),
+        ops::HOOK_CALLS.load(std::sync::atomic::Ordering::Relaxed) as u8
     )
 }
 
@@ -964,6 +982,12 @@ fn main() {
         if s.contains("HARNESS") {
             eprintln!("{}", s);
         }
+        // the caller's panic hook formats a few numbers for its log line through the library — on the
+        // panicking thread, before unwinding starts, while the library's own frames (and whatever they
+        // hold) are still live.  Off unless the run's swarm says so.
+        if ops::HOOK_CALLS.load(std::sync::atomic::Ordering::Relaxed) {
+            ops::calls_from_panic_hook();
+        }
     }));
     let argv: Vec<String> = std::env::args().collect();
     if argv.len() < 2 {
@@ -989,6 +1013,9 @@ fn main() {
             }
             if sw.small_stack {
                 ops::SMALL_STACK_KB.store(ops::SMALL_STACK_DEFAULT_KB, std::sync::atomic::Ordering::Relaxed);
+            }
+            if sw.hook_calls {
+                ops::HOOK_CALLS.store(true, std::sync::atomic::Ordering::Relaxed);
             }
             if let Some(kb) = args.stack_kb {
                 ops::SMALL_STACK_KB.store(kb, std::sync::atomic::Ordering::Relaxed);
@@ -1023,6 +1050,9 @@ fn main() {
             }
             if let Some(kb) = hdr.get("small_stack_kb").and_then(|s| s.parse::<usize>().ok()) {
                 ops::SMALL_STACK_KB.store(kb, std::sync::atomic::Ordering::Relaxed);
+            }
+            if hdr.get("hook_calls").map(|s| s.as_str()) == Some("1") {
+                ops::HOOK_CALLS.store(true, std::sync::atomic::Ordering::Relaxed);
             }
             if let Some(kb) = args.stack_kb {
                 ops::SMALL_STACK_KB.store(kb, std::sync::atomic::Ordering::Relaxed);
